@@ -31,6 +31,9 @@ use libp2p_swarm::ConnectionId;
 use prost::Message as _;
 #[cfg(feature = "serde")]
 use serde::{Deserialize, Serialize};
+#[cfg(libp2p_verif)]
+use libp2p_core::verif_clock::Instant;
+#[cfg(not(libp2p_verif))]
 use web_time::Instant;
 
 use crate::{TopicHash, queue::Queue, rpc_proto::proto};
